@@ -11,6 +11,7 @@ import (
 	"go/token"
 	"go/types"
 	"os"
+	"os/exec"
 	"path/filepath"
 	"sort"
 	"strings"
@@ -655,8 +656,12 @@ func main() {
 				fmt.Fprintln(os.Stderr, "extra MAP.json:", err)
 				os.Exit(2)
 			}
+			modcache := ""
+			if out, err := exec.Command("go", "env", "GOMODCACHE").Output(); err == nil {
+				modcache = strings.TrimSpace(string(out))
+			}
 			for k, v := range m {
-				overlay[k] = filepath.Join(*extra, v)
+				overlay[strings.ReplaceAll(k, "${GOMODCACHE}", modcache)] = filepath.Join(*extra, v)
 			}
 		}
 	}
